@@ -604,8 +604,8 @@ def selectTemplate (ns : Ns) : List CallTemplate → Except CliErr CallTemplate
     | some true => .ok t
     | some false => selectTemplate ns ts
 
-/-- exceptions of the helper that `cli()` turns into a CLIError -/
-def shielded (exc : String) : Bool := exc == "ValueError" || exc == "CLIError"
+/-- exceptions of the helper that `cli()` turns into a CLIError (`except (CLIError, ValueError, TypeError)`) -/
+def shielded (exc : String) : Bool := exc == "ValueError" || exc == "CLIError" || exc == "TypeError" || exc == "OverflowError"
 
 def instantiate (ns : Ns) (t : CallTemplate) : Except CliErr Call :=
   if t.raises != "" then (if shielded t.raises then .error .cliError else .error (.crash t.raises))
